@@ -97,6 +97,9 @@ class PropertyCheck:
     pool: int = 16
     trace_chunk: int = 3000
     post: Callable[[list[Case], list[dict]], list[tuple[Case, str]]] | None = None
+    # whole-run validation against the composed monitor spec/Ropt.tla: only rejections whose clause belongs to this
+    # property are reported here (a rejection with another property's clause is reported by that property's check)
+    whole_run_clauses: tuple = ()
 
 
 def _drive_one(args):
@@ -136,10 +139,11 @@ def run(check: PropertyCheck, driver_module: str, argv: list[str]) -> int:
 
 def _replay(check: PropertyCheck, driver_module: str, path: str) -> int:
     data = json.loads(Path(path).read_text())
-    trace, features, err = _drive_one((driver_module, data["scenario"]))
+    whole = "whole_run" in data["scenario"]
+    trace, features, err = _drive_one(("rv.drivers.ropt" if whole else driver_module, data["scenario"]))
     if err:
         raise MachineryError(err)
-    verdicts, _ = tlc.validate_traces(check.trace_module, [trace])
+    verdicts, _ = tlc.validate_traces("Ropt" if whole else check.trace_module, [trace])
     v = verdicts[0]
     print(json.dumps({"scenario": data["scenario"], "trace": trace, "verdict": v}, indent=1)[:20000])
     if v["verdict"] == "REJECT":
@@ -232,6 +236,28 @@ def _run(check: PropertyCheck, driver_module: str, tier: str, seed: int, t0: flo
     finally:
         if pool is not None:
             pool.shutdown()
+    # ---- composed whole-run validation (spec/Ropt.tla), restricted to this property's clauses
+    whole = {"runs": 0, "events": 0, "foreign_rejections": 0}
+    if check.whole_run_clauses:
+        from .drivers import ropt as ropt_driver
+        wsc = ropt_driver.scenarios(tier, seed)
+        wres = [_drive_one(("rv.drivers.ropt", w)) for w in wsc]
+        for w, (trace, features, err) in zip(wsc, wres):
+            if err:
+                raise MachineryError(f"whole-run driver failure on {w}:\n{err}")
+        wverd, wt = tlc.validate_traces("Ropt", [r[0] for r in wres], chunk=8)
+        if wt:
+            states += wt.distinct
+            transitions += wt.generated
+        for w, (trace, features, _), v in zip(wsc, wres, wverd):
+            whole["runs"] += 1
+            whole["events"] += len(trace)
+            if v["verdict"] == "REJECT":
+                if v["clause"] in check.whole_run_clauses:
+                    violations.append((Case(scenario={"whole_run": features.get("name"), **w}, trace=trace, features=features,
+                                            origin="recorded"), v))
+                else:
+                    whole["foreign_rejections"] += 1
     # ---- report
     rc = 0
     for f in findings:
@@ -264,7 +290,7 @@ def _run(check: PropertyCheck, driver_module: str, tier: str, seed: int, t0: flo
             "exhaustive": bool(check.exhaustive_claim and n_tlc > 0 and not limit),
             "scenarios_from_tlc": n_tlc, "scenarios_random": n_cases - n_tlc,
             "trace_events": events, "model_runs": mc_info,
-            "rejected_known": known, "rejected_new": len(violations),
+            "rejected_known": known, "rejected_new": len(violations), "whole_runs_validated_against_Ropt_tla": whole,
             "stage_wall_s": {"model_check": round(t_mc, 1), "replay": round(t_drive, 1), "trace_validation": round(t_val, 1)},
         },
         "assumptions": check.assumptions,
